@@ -251,3 +251,58 @@ pub fn password_files(rep: &Report, tag: &str) {
     });
     rep.extra("password_channel_file_cases", json!(jobs.len()));
 }
+
+/// C02: `password encrypt` with P through channel A, `password decrypt` of that file with P through channel B gives the
+/// plaintext back, for every ordered pair of channels; a near miss of P through B is refused and releases nothing.
+pub fn round_trips(rep: &Report, tag: &str) {
+    let pws = passwords();
+    let pt = plaintext(rep.seed ^ 0xc4a3, 700);
+    let mut jobs: Vec<(usize, Chan)> = vec![];
+    for i in 0..pws.len() {
+        for a in CHANS {
+            jobs.push((i, a));
+        }
+    }
+    jobs.par_iter().for_each(|&(i, a)| {
+        let p = pws[i];
+        rep.nontrivial(format!("chan-roundtrip-{}-{:?}", i, a).as_bytes());
+        let res = twice(|| {
+            let sc = Scratch::new();
+            sc.write("plain.bin", &pt);
+            let out = proc::run(&wire(&["password", "encrypt", "plain.bin", "-o", "ct.ktl"], a, None, &[p, p], &[("KESTREL_PASSWORD", p)]), &sc.0);
+            out.well_behaved()?;
+            if !out.ok() {
+                return Err(format!("password encrypt ({}) fails: {}", a.name(), out.summary()));
+            }
+            for b in CHANS {
+                rep.eval(1);
+                let _ = std::fs::remove_file(sc.0.join("out.bin"));
+                let out = proc::run(&wire(&["password", "decrypt", "ct.ktl", "-o", "out.bin"], b, None, &[p, p, p], &[("KESTREL_PASSWORD", p)]), &sc.0);
+                if !out.timed_out {
+                    out.well_behaved()?;
+                }
+                if !out.ok() || sc.read("out.bin").unwrap_or_default() != pt {
+                    return Err(format!("encrypted with the password {:?} ({}), decrypting with the same password ({}) does not give the plaintext back: {}", p, a.name(), b.name(), out.summary()));
+                }
+            }
+            // one near miss per channel (the first), through the environment and at the stdin terminal
+            if let Some(q) = near(p).into_iter().find(|q| !q.is_empty()) {
+                for b in [Chan::Env, Chan::TtyStdin] {
+                    rep.eval(1);
+                    let _ = std::fs::remove_file(sc.0.join("out.bin"));
+                    let limit = std::time::Duration::from_millis(if b == Chan::Env { 30_000 } else { 2500 });
+                    let out = proc::run_limit(&wire(&["password", "decrypt", "ct.ktl", "-o", "out.bin"], b, None, &[&q, &q, &q], &[("KESTREL_PASSWORD", &q)]), &sc.0, limit);
+                    let released = sc.read("out.bin").unwrap_or_default();
+                    if out.ok() || !released.is_empty() {
+                        return Err(format!("encrypted with the password {:?} ({}), decrypting with {:?} ({}) {}", p, a.name(), q, b.name(), if out.ok() { "succeeds".to_string() } else { format!("releases {} bytes", released.len()) }));
+                    }
+                }
+            }
+            Ok(())
+        });
+        if let Err(e) = res {
+            rep.violation(&format!("{}/password-channel/round-trip", tag), json!({"kind":"chan","part":"round-trip","password":p,"encrypt_channel":a.name()}), e);
+        }
+    });
+    rep.extra("password_channel_round_trip_encryptions", json!(jobs.len()));
+}
